@@ -11,10 +11,11 @@ from dissect.cobaltstrike import guardrails as G
 from dissect.cobaltstrike.beacon import BeaconConfig
 
 from . import common as C
+from . import pyuval, pyuval_t15, pyuval_t17
 
 ID = "C17"
 DRIVER = "drv_c17"
-GEN = ["guardrails", "py_utils", "py_guard"]
+GEN = ["guardrails", "py_utils", "py_guard", "py_guardu"]
 EXTRA_PROP_FILES = ["Props/C17Gen.lean"]
 STREAMS = {
     "ff": {"relevant": True, "desc": "BeaconConfig.from_bytes(payload): guardrails metadata + config block / ValueError"},
@@ -24,11 +25,28 @@ STREAMS = {
     "cands": {"relevant": False, "desc": "find_xor_key_candidates(BytesIO(data)) with io.DEFAULT_BUFFER_SIZE patched (Counter/most_common model)"},
     "cks": {"relevant": False, "desc": "payload_checksum(data)"},
     "g-cks": {"relevant": False, "desc": "payload_checksum translated from its source text (Gen/PyGuard.lean) vs the function"},
+    "g-scan": {"relevant": False, "desc": "iter_guardrail_configs TRANSLATED from its source (Gen/PyGuardU.lean, untyped translator) vs the function, "
+               "on every case of scan and on the payloads of wb (up to 24 KiB); also the final file position and sums of the masked areas"},
+    "g-cands": {"relevant": False, "desc": "translated find_xor_key_candidates vs the function on every case of cands"},
+    "g-wb": {"relevant": False, "desc": "translated iter_guardrail_configs_with_beacon over the other two translated definitions vs the function, "
+             "on every case of wb (payloads up to 24 KiB) and on the ff payloads up to 24 KiB"},
+    "g-sel": {"relevant": False, "desc": "the translated selection loop alone: iter_guardrail_configs / find_xor_key_candidates replaced (in the "
+              "module, for the call) by stubs that answer the records / candidates of the line — fields and keys of ANY kind"},
+    "g-arg": {"relevant": False, "desc": "translated iter_guardrail_configs / find_xor_key_candidates vs the functions on arguments of ANY kind "
+              "(None / str / int where bytes or a file object is expected, files of both kinds at any position)"},
+    "pyu": {"relevant": False, "desc": "the operations of Model/PyU_T17.lean (range(a, b), utils.grouper, bytes(x), Counter.update / most_common, "
+            "BufferedReader.peek + GuardrailSetting(reader), payload_checksum on any value) vs CPython / dissect.cstruct on random operands"},
 }
 TRUSTED = [
     "tools/harness/c17.py (independent builder, generators, adapters, oracle); line protocol parsing in lean/CsVerif/Driver/C17.lean",
     "tools/gen/guardrails.py (introspection of GUARD_CONFIG_STARTS, patch sizes, enums, struct layout, default keys; "
     "the 0x2e literals are read from the functions' AST)",
+    "the three generator functions and payload_checksum are ALSO translated from their source text on every run (plug-ins gen/py_guard.py, "
+    "gen/py_guardu.py -> Gen/PyGuard.lean, Gen/PyGuardU.lean) and proved equal to the model for all arguments (Props/C17Gen.lean); trusted "
+    "for that tie: tools/py2lean.py, tools/py2leanu.py (+ the T17 hooks), Model/PyRt.lean, Model/PyU.lean, PyU_T15.lean (file objects), "
+    "PyU_T02.lean (cstruct structure read, try/except), PyU_T17.lean (for-else, range(a, b), BufferedReader.peek, utils.grouper, bytes(), "
+    "Counter.update / most_common) - validated by the g-* / pyu streams on every run; in compiled code the typed translations of "
+    "payload_checksum / utils.xor inside Gen/PyGuardU.lean are replaced by proved-equal linear versions (Model/C17Fast.lean, csimp)",
     "modelled, not verified: dissect.cstruct struct/enum reading (EOFError on short data, unknown enum values accepted), "
     "io.BufferedReader.peek over a 2048-byte BytesIO, collections.Counter.most_common(2) (= heapq.nlargest: count desc, ties by "
     "first insertion), itertools.zip_longest grouping, utils.xor (C20 byte-wise model) — each exercised by a stream",
@@ -41,6 +59,9 @@ ASSUMPTIONS = [
     "generators are eager lists in the model: equivalent to the lazy Python generators because the scan never raises "
     "(theorem iterGuardrailConfigs_total)",
     "io.DEFAULT_BUFFER_SIZE = 8192 in production; other values only via patching inside impl",
+    "translation: a generator is the list of its yields (consumed completely); the external generator handed a file parameter is run to "
+    "its end before the first run of the loop body (exact here: the scan never raises, gen_scan_total); utils.grouper's result is used "
+    "once; the yielded GuardrailMetadata objects are not referenced by the generator afterwards (checked by the translator)",
 ]
 RULE = ("builder-made protected payloads over key lengths 2..256 × option subsets × positions × corruptions, plus crafted "
         "scan/candidate/checksum inputs; distinct = hash of input line; non-trivial = at least one guardrail metadata "
@@ -283,7 +304,83 @@ def _impl(stream, line):
         return str(G.payload_checksum(C.unhx(w[1])))
     if stream == "g-cks":
         return "ok " + str(G.payload_checksum(C.unhx(w[1])))
+    if stream == "g-scan":
+        fh = io.BytesIO(C.unhx(w[1]))
+        ms = list(G.iter_guardrail_configs(fh, C.unhx(w[2])))
+        return "ok " + gshow_metas(ms) + f" @{fh.tell()}"
+    if stream == "g-wb":
+        fh = io.BytesIO(C.unhx(w[1]))
+        with _BufSize(int(w[2])):
+            ms = list(G.iter_guardrail_configs_with_beacon(fh))
+        return "ok " + gshow_metas(ms) + f" @{fh.tell()}"
+    if stream == "g-cands":
+        fh = io.BytesIO(C.unhx(w[1]))
+        with _BufSize(int(w[2])):
+            cs = list(G.find_xor_key_candidates(fh))
+        return "ok " + " ".join([str(len(cs))] + [C.hx(c) for c in cs]) + f" @{fh.tell()}"
+    if stream == "g-sel":
+        f, recs, cands = (pyuval_t17.parse(t) for t in w[1:4])
+        saved = (G.iter_guardrail_configs, G.find_xor_key_candidates)
+        G.iter_guardrail_configs = lambda fh: iter(recs)
+        G.find_xor_key_candidates = lambda fh: iter(cands)
+        try:
+            with pyuval_t15.Opened([f]) as a:
+                ms = list(G.iter_guardrail_configs_with_beacon(a[0]))
+                return "ok " + gshow_any(ms) + f" @{a[0].tell()}"
+        finally:
+            G.iter_guardrail_configs, G.find_xor_key_candidates = saved
+    if stream == "g-arg":
+        args = [pyuval_t17.parse(t) for t in w[2:]]
+        if w[1] == "scan":
+            with pyuval_t15.Opened(args) as a:
+                ms = list(G.iter_guardrail_configs(a[0], a[1]))
+                return "ok " + gshow_any(ms) + f" @{a[0].tell()}"
+        with pyuval_t15.Opened(args) as a:
+            with _BufSize(a[0]):
+                cs = list(G.find_xor_key_candidates(a[1]))
+            if all(type(c) is bytes for c in cs):
+                return "ok " + " ".join([str(len(cs))] + [C.hx(c) for c in cs]) + f" @{a[1].tell()}"
+            return "ok " + pyuval_t17.show(cs) + f" @{a[1].tell()}"
+    if stream == "pyu":
+        return pyuval_t17.run(line)
     raise RuntimeError("unknown stream " + stream)
+
+
+def sums(b: bytes) -> str:
+    s1 = s2 = 0
+    for x in b:
+        s2 = (s2 + s1 + x) % 65521
+        s1 = (s1 + x) % 65521
+    return f"{len(b)}:{s1}:{s2}"
+
+
+def gshow_meta(m) -> str:
+    parts = [str(m.beacon_config_offset), str(m.guard_config_offset), sums(m.masked_beacon_config), sums(m.masked_guard_config),
+             C.hx(m.beacon_xor_key), C.hx(m.guardrail_xor_key), str(m.checksum), ob(m.payload_xor_key), ob(m.unmasked_beacon_config),
+             C.hx(m.unmasked_guard_config), str(len(m.settings))]
+    for s in m.settings:
+        parts += [str(int(s.option.value)), str(int(s.type.value)), str(int(s.length)), C.hx(s.value)]
+    return " ".join(parts)
+
+
+def gshow_metas(ms) -> str:
+    return " | ".join([str(len(ms))] + [gshow_meta(m) for m in ms])
+
+
+def _plain_meta(m) -> bool:
+    """a record of the shape the driver prints in the `showMeta` format (anything else is printed in the generic notation)"""
+    def nn(x):
+        return type(x) is int
+    return (type(m) is G.GuardrailMetadata and nn(m.beacon_config_offset) and nn(m.guard_config_offset) and nn(m.checksum)
+            and all(type(getattr(m, f)) is bytes for f in ("masked_beacon_config", "masked_guard_config", "beacon_xor_key", "guardrail_xor_key",
+                                                           "unmasked_guard_config"))
+            and all(x is None or type(x) is bytes for x in (m.payload_xor_key, m.unmasked_beacon_config))
+            and type(m.settings) is list and all(type(s) is G.GuardrailSetting and type(s.value) is not None and int(s.length) >= 0
+                                                 and int(s.option.value) >= 0 and int(s.type.value) >= 0 for s in m.settings))
+
+
+def gshow_any(ms) -> str:
+    return gshow_metas(ms) if all(_plain_meta(m) for m in ms) else pyuval_t17.show(ms)
 
 
 # --------------------------------------------------------------------------------------
@@ -408,7 +505,9 @@ def oracle(stream, line, out):
 
 
 def nontrivial(stream, line, out):
-    if stream in ("cands", "cks", "g-cks"):
+    if stream in ("pyu", "g-arg", "g-sel"):
+        return True
+    if stream in ("cands", "cks", "g-cks", "g-cands"):
         return line.split()[1] != "x"
     if stream in ("ff", "ffx"):
         return out.startswith("ok ")
@@ -441,7 +540,97 @@ def quick_lengths(rng):
     return base + [rng.randrange(2, 257) for _ in range(3)]
 
 
+GCAP = 24 * 1024      # the translated scan re-reads the file list for every offset (quadratic on Lean lists): payloads up to this size
+
+
 def gen(tier, rng, shard, nshards):
+    """every case of the hand-model streams, each followed by the same case for the TRANSLATED definitions (`g-*`), then the
+    cases only the translation can express (`g-sel`, `g-arg`) and the `pyu` cases"""
+    nff = 0
+    for stream, line in _gen_model(tier, rng, shard, nshards):
+        yield stream, line
+        w = line.split()
+        if stream == "ff":
+            nff += 1
+            if tier != "thorough" and nff % 3 != 0:
+                continue       # quick tier: every third ff payload also goes through the translated pipeline (0.4 s per case on each side)
+        if stream == "scan":
+            yield "g-scan", "g" + line
+        elif stream == "cands":
+            yield "g-cands", "g" + line
+        elif stream == "wb" and len(w[1]) // 2 <= GCAP:
+            yield "g-wb", "g" + line
+            yield "g-scan", f"gscan {w[1]} x8a"
+        elif stream == "ff" and len(w[1]) // 2 <= GCAP:
+            yield "g-wb", f"gwb {w[1]} {w[2]}"
+    thorough = tier == "thorough"
+    grng = __import__("random").Random(rng.randrange(2 ** 32) + 7919 * shard)
+    for _ in range((3000 if thorough else 300) // nshards + 1):
+        yield "g-sel", gsel_case(grng)
+    for _ in range((1500 if thorough else 150) // nshards + 1):
+        yield "g-arg", garg_case(grng)
+    for _ in range((20000 if thorough else 2000) // nshards + 1):
+        line = pyuval_t17.case(grng)
+        if line is not None:
+            yield "pyu", line
+
+
+def gsel_case(rng):
+    """records and candidates of any kind for the selection loop: matching / non-matching checksums at several candidate
+    positions, `for … else`, the empty key, fields and keys of wrong kinds"""
+    cands = [bytes(rng.randrange(256) for _ in range(rng.choice([1, 2, 2, 3, 5]))) for _ in range(rng.choice([0, 1, 2, 3, 4]))]
+    if rng.random() < 0.2:
+        cands.insert(rng.randrange(len(cands) + 1), rng.choice([b"", b"\x00\x00", None, "ab", 5, [b"a"], ("a",)]))
+    recs = []
+    for _ in range(rng.choice([0, 1, 1, 2, 3])):
+        mb = bytes(rng.randrange(256) for _ in range(rng.choice([0, 1, 5, 12, 12, 30])))
+        guarded = bx(mb, b"\x2e")
+        good = [c for c in cands if type(c) is bytes]
+        r = rng.random()
+        if good and r < 0.55:
+            ck = cks(bx(guarded, rng.choice(good))) + 1       # the checksum of one of the candidates (not always the first)
+        elif r < 0.7:
+            ck = cks(guarded) + 1                            # what the empty / all-zero key would give
+        else:
+            ck = rng.choice([0, 1, 7, 99999999, -1])
+        if rng.random() < 0.12:
+            ck = rng.choice([None, "5", True, False, b"\x01", [1], (ck,)])
+        if rng.random() < 0.1:
+            mb = rng.choice([None, "abc", 5, ""])
+        rec = [rng.choice([0, 3, -1]), rng.choice([6144, 6147, 0]), mb, rng.choice([b"", b"\x01\x02"]), rng.choice([b"\x2e", b"\x69", None]),
+               b"\x8a", b"\x00\x00", ck, rng.choice([None, None, b"old"]), rng.choice([None, None, b"oldcfg"]), rng.choice([[], [], [1, 2], None])]
+        recs.append("I33[" + ";".join(pyuval_t17.show(x) for x in rec) + "]")
+    if rng.random() < 0.08:
+        recs.insert(rng.randrange(len(recs) + 1), pyuval_t17.show(rng.choice([None, 5, (1, 2), {}, b"ab", "x"])))
+    f = pyuval_t15.rfile(rng)
+    cshow = pyuval_t17.show(rng.choice([cands, cands, cands, tuple(cands), {c: 1 for c in cands if c.__hash__ is not None}]) if rng.random() < 0.93
+                            else rng.choice([None, 5, "ab", b"ab"]))
+    return f"gsel {f.tok()} L[{';'.join(recs)}] {cshow}"
+
+
+def garg_case(rng):
+    if rng.random() < 0.5:
+        # iter_guardrail_configs(fh, xorkey)
+        if rng.random() < 0.5:
+            gkey = rng.choice([b"\x8a", b"\x8a", b"", b"\x00", b"\x01\x02"])
+            data = scan_payload(rng, rng.choice([0, 1, 3, 4, 5, 6, 8]), gkey)
+            if len(data) > GCAP:
+                data = data[:GCAP]
+            f = pyuval_t15.FileSpec(data, rng.choice([0, 0, 5, len(data), len(data) + 9]), rng.choice([0, 1]))
+            key = gkey if rng.random() < 0.8 else rng.choice([None, "\x8a", 138, True])
+        else:
+            f = pyuval_t15.rfile(rng) if rng.random() < 0.8 else rng.choice([None, 5, b"ab", [1]])
+            key = rng.choice([b"\x8a", b"", b"\x00\x00", b"ab", None, "a", 5, False])
+        return f"garg scan {pyuval_t17.show(f)} {pyuval_t17.show(key)}"
+    n = rng.choice([0, 1, 2, 3, 5, 8, 13, 40])
+    alpha = rng.choice([b"\x00\x01", b"ab", b"\x00ab"])
+    data = bytes(rng.choice(alpha) for _ in range(n))
+    f = pyuval_t15.FileSpec(data, rng.choice([0, 0, 1, n, n + 2]), rng.choice([0, 0, 1])) if rng.random() < 0.9 else rng.choice([None, 5, b"ab", "ab"])
+    buf = rng.choice([8192, 8192, 1, 2, 3, 5, 7, 16, 0, -1, -1, -2, True, False, None, None, "8", b"", [3]])
+    return f"garg cands {pyuval_t17.show(buf)} {pyuval_t17.show(f)}"
+
+
+def _gen_model(tier, rng, shard, nshards):
     thorough = tier == "thorough"
     k = 0
 
